@@ -1,6 +1,7 @@
 import Gedcom.Model.MergeGraph
 import Gedcom.Model.MergeDocs
 import Gedcom.Model.Decoder
+import Gedcom.Lemmas.MergePath
 import Driver.Util
 import Driver.Tree
 namespace Driver
@@ -70,7 +71,7 @@ def handleMergeGraph (cmd : String) (rest : List String) : Option String :=
 /-
   mergedocs <nm> m* <forest left> <forest right>     m := B i j | L i | R j
   (i, j: positions among the INDI records of each document, in the order the comparisons arrived)
-  answer: `ok legal=<b> <forest>` — the records of the merged document in order and whether they
+  answer: `ok legal=<b> inputs=<b> <forest>` (inputs: `recordsBelowFam` of both inputs, the guard of `output_redecodes`) — the records of the merged document in order and whether they
   pass C01's legality check (`legalDocB`, the guard of `output_redecodes_partial`) — or
   `error` / `panic` / `oof`.
 -/
@@ -97,7 +98,9 @@ def handleMergeDocs (cmd : String) (rest : List String) : Option String :=
       | .outOfFuel => some "oof"
       | o@(.ok _ _ _) =>
         match o.nodes with
-        | some ns => some s!"ok legal={b2s (Gedcom.Dec.legalDocB ⟨false, ns⟩)} {showForest ns}"
+        | some ns =>
+          let below (l : List Gedcom.INode) : Bool := l.all fun n => Gedcom.rolesBelowFam false n.erase
+          some s!"ok legal={b2s (Gedcom.Dec.legalDocB ⟨false, ns⟩)} inputs={b2s (below a.1 && below b.1)} {showForest ns}"
         | none => some "error"
     | none => some "bad-op"
   | _ => none
